@@ -713,8 +713,89 @@ def gen_xf_case(rng, tier, idx, kind=None, n=None):
             case["api"] = "factory"
             case["how"] = "decorator"  # (`how: prior` goes through as_dataclass_node, which empties the registry entry)
         params = [{"name": x, "ann": a, "default": d, "alts": alts.get(x)} for x, a, _k, d in fields]
+        if n <= 6 and "prior_fields" not in case and rng.random() < 0.35:
+            hp = gen_dc_hier(rng, ctr, case)
+            if hp is not None:
+                params = hp
         case["runs"] = [gen_run(rng, ctr, params) for _ in range(nruns)]
     return case
+
+
+DC_ANNS = ["int", "str", "int | None", "typing.Optional[str]", "bool"]
+
+
+def gen_dc_hier(rng, ctr, case):
+    """turn the flat layout of `case` into a class hierarchy: decorated and undecorated ancestors, a leaf that adds
+    members, overrides inherited defaults (also by a default factory), re-declares an inherited member, members that are
+    no init parameters (ClassVar, field(init=False)) or no fields (InitVar), kw_only classes.  Python's own `dataclasses`
+    decides whether the layout is valid (dc_twin) and what the class is built from; returns the parameter list for the
+    runs (None: no valid hierarchy found, the case stays flat)"""
+    own = [list(f) for f in case["fields"]]
+    pool = [x for x in NAMES + ["k1", "k2", "k3", "w", "z9"] if x not in {f[0] for f in own}]
+    for _attempt in range(10):
+        rng.shuffle(pool)
+        names = iter(pool)
+        nlev = rng.choice([1, 1, 1, 2])
+        chain, inherited = [], []  # inherited: [name, ann] a child may re-declare
+        for j in range(nlev):
+            deco = rng.random() < (0.9 if j == 0 else 0.6)
+            kwo = deco and rng.random() < 0.15
+            flds, opts = [], {}
+            nreq = rng.choice([0, 1, 1, 2]) if (j == 0 or kwo) else 0
+            for _ in range(nreq):
+                flds.append([next(names), rng.choice(DC_ANNS), "n", None])
+            for _ in range(rng.choice([0, 1, 2])):
+                ann = rng.choice(DC_ANNS + ["list"])
+                k = "f" if ann == "list" else rng.choice(["v", "v", "f"])
+                x = next(names)
+                flds.append([x, ann, k, ctr.fresh(rng, ann)])
+                o = rng.random()
+                if o < 0.2 and k == "v":
+                    opts[x] = "cv"
+                elif o < 0.32:
+                    opts[x] = "i0"
+                elif o < 0.45 and k == "v":
+                    opts[x] = "iv"
+            if j > 0 and deco and inherited and rng.random() < 0.5:
+                x, ann = rng.choice(inherited)  # a decorated class in the middle overrides an inherited default
+                flds.append([x, ann, "v" if ann != "list" else "f", ctr.fresh(rng, ann)])
+            chain.append({"deco": deco, "kw_only": kwo, "fields": flds, "opts": opts})
+            if deco:  # (the members of an undecorated class in the middle are lost for its children)
+                inherited += [[f[0], f[1]] for f in flds if opts.get(f[0]) is None]
+        leaf = [f for f in own]
+        lopts = {}
+        for f in leaf:
+            o = rng.random()
+            if f[2] == "v" and o < 0.12:
+                lopts[f[0]] = "cv"
+            elif f[2] in ("v", "f") and o < 0.22:
+                lopts[f[0]] = "i0"
+            elif f[2] == "v" and o < 0.32:
+                lopts[f[0]] = "iv"
+        for x, ann in rng.sample(inherited, min(len(inherited), rng.choice([0, 1, 1, 2]))):
+            # the leaf overrides an inherited member: another default, a default for a required one, a default factory
+            k = "f" if ann == "list" else rng.choice(["v", "v", "f"])
+            leaf.insert(rng.randrange(len(leaf) + 1), [x, ann, k, ctr.fresh(rng, ann)])
+        trial = dict(case)
+        trial.update({"chain": chain, "fields": leaf, "opts": lopts,
+                      "kw_only": bool(case["already"] and case.get("how") == "decorator" and rng.random() < 0.15)})
+        B = dc_twin(trial)
+        if B is None:
+            continue
+        case.update({"chain": chain, "fields": leaf, "opts": lopts, "kw_only": trial["kw_only"]})
+        # the parameters of the runs: what python's dataclass is built from (value tokens from the written defaults)
+        spec = {}
+        for c in [*chain, {"fields": leaf}]:
+            for x, ann, k, d in c["fields"]:
+                spec[x] = (ann, d if k in ("v", "f") else None)
+        import dataclasses as _dcs
+
+        out = []
+        for nm, f in dc_init_fields(B):
+            has_default = f.default is not _dcs.MISSING or f.default_factory is not _dcs.MISSING
+            out.append({"name": nm, "ann": spec[nm][0], "default": (spec[nm][1] or "i0") if has_default else None})
+        return out
+    return None
 
 
 def gen_cases(rng, tier):
@@ -759,7 +840,7 @@ def gen_cases(rng, tier):
                      "def list 1", "inst 1 tuple(i1", "call 0 =", "inst 0", "call 1 i1 item_0", "call 2 i1",
                      "retstmt bare", "def fn 2 - t0", "def fn 1 - t0", "retann - x", "retelt x", "param a -", "io",
                      "retstmt frob", "show",
-                     "cfg 0 0", "cfg 0 0 0 0 0 0 0 2", "regkey D", "regkey D x", "def fn 1 - I0", "def fn 1 - I0:x",
+                     "cfg 0 0", "cfg 0 0 0 0 0 0 0 0 2", "regkey D", "regkey D x", "def fn 1 - I0", "def fn 1 - I0:x",
                      "def list 1", "inst 1 @7", "inst 1 @x.marker", "inst 1 @7.", "inst 1 @7.marker"],
            "expect": ["bad-op"] * 7 + ["def ok ins=[item_0:-=ND] outs=[list:builtins.list]", "bad-op", "bad-op",
                                        "inst ok ins=[item_0=ND]", "bad-op", "bad-op"]
@@ -994,26 +1075,46 @@ def fn_source(case, h):
     return "\n".join(lines)
 
 
+def _dc_ann(ann, opt):
+    """the annotation as written in the class body"""
+    if opt == "cv":
+        return f"typing.ClassVar[{ann}]"
+    if opt == "iv":
+        return f"dataclasses.InitVar[{ann}]"
+    return ann
+
+
 def dc_source(case, h):
     lines = ["import typing", "import dataclasses", "from dataclasses import dataclass, field",
              "from pwh.nodes_c17 import POOL as _P", ""]
+    chain = case.get("chain") or []
+    for j, c in enumerate(chain):
+        for x, _ann, k, d in c["fields"]:
+            if k == "f":
+                lines += [f"def _fac{j}_{x}():", f"    return {lit(d)}", ""]
     for x, _ann, k, d in case["fields"]:
         if k == "f":
             lines += [f"def _fac_{x}():", f"    return {lit(d)}", ""]
 
-    def cls(name, deco, fields=None, fac="_fac_", indent=""):
+    def cls(name, deco, fields=None, fac="_fac_", indent="", opts=None, base=None, kw_only=False):
         fields = case["fields"] if fields is None else fields
-        out = [indent + "@dataclass"] if deco else []
-        out.append(f"{indent}class {name}:")
+        opts = opts or {}
+        out = [indent + ("@dataclass(kw_only=True)" if kw_only else "@dataclass")] if deco else []
+        out.append(f"{indent}class {name}{'(' + base + ')' if base else ''}:")
         if not fields:
             out.append(indent + "    pass")
         for x, ann, k, d in fields:
-            if k == "n":
-                out.append(f"{indent}    {x}: {ann}")
+            o = opts.get(x)
+            a = _dc_ann(ann, o)
+            if o == "i0":
+                how = f"default={lit(d)}" if k == "v" else f"default_factory={fac}{x}"
+                out.append(f"{indent}    {x}: {a} = field(init=False, {how})")
+            elif k == "n":
+                out.append(f"{indent}    {x}: {a}")
             elif k == "v":
-                out.append(f"{indent}    {x}: {ann} = {lit(d)}")
+                out.append(f"{indent}    {x}: {a} = {lit(d)}")
             else:
-                out.append(f"{indent}    {x}: {ann} = field(default_factory={fac}{x})")
+                out.append(f"{indent}    {x}: {a} = field(default_factory={fac}{x})")
         out.append("")
         return out
 
@@ -1025,14 +1126,47 @@ def dc_source(case, h):
         lines += ["def _mk_prior():"] + cls(f"D_{h}_0", True, case["prior_fields"], "_facp_", "    ")
         lines += [f"    return D_{h}_0", "", f"Prior_{h} = _mk_prior()", ""]
 
+    # the ancestors (base-most first), decorated or not; the leaf and its reference twin extend the last of them
+    base = None
+    for j, c in enumerate(chain):
+        lines += cls(f"A{j}_{h}", c["deco"], c["fields"], f"_fac{j}_", "", c.get("opts"), base, c.get("kw_only", False))
+        base = f"A{j}_{h}"
     # one class object per use (class-level preview + one per run when the instantiating helper is used): handing
     # the SAME class to the node factory twice is the `prior` way of being "already a dataclass"
     ncls = len(case["runs"]) + 1 if case["api"] == "helper" else 1
     deco = case["already"] and case.get("how", "decorator") == "decorator"
+    kwo = bool(case.get("kw_only")) and deco
     for i in range(ncls):
-        lines += cls(f"D_{h}_{i}", deco)
-    lines += cls(f"B_{h}", True)
+        lines += cls(f"D_{h}_{i}", deco, None, "_fac_", "", case.get("opts"), base, kwo)
+    # the reference: the same class body under the same ancestors, made a dataclass by Python itself
+    lines += cls(f"B_{h}", True, None, "_fac_", "", case.get("opts"), base, kwo)
     return "\n".join(lines)
+
+
+def dc_hier(case) -> bool:
+    return bool(case.get("chain") or case.get("opts") or case.get("kw_only"))
+
+
+def dc_twin(case):
+    """the reference dataclass of a layout as PYTHON'S OWN `dataclasses` makes it, or None when python refuses the layout
+    (a field without default after one with)"""
+    c = dict(case)
+    c["api"], c["runs"] = "class", []
+    c.pop("prior_fields", None)
+    ns: dict = {}
+    try:
+        exec(compile(dc_source(c, "v"), "<c17 dataclass layout>", "exec"), ns)  # noqa: S102
+    except (TypeError, ValueError):
+        return None
+    return ns["B_v"]
+
+
+def dc_init_fields(B):
+    """the members a dataclass is BUILT FROM, in the order of its field table: [(name, Field)]"""
+    import inspect
+
+    initp = inspect.signature(B).parameters
+    return [(nm, f) for nm, f in B.__dataclass_fields__.items() if f.init and nm in initp]
 
 
 # ----------------------------------------------------------------------------- implementation side
@@ -1051,6 +1185,7 @@ def _variant():
         from pyiron_workflow.nodes import transform as T
 
         import dataclasses
+        import typing
 
         # (make_dataclass: this module uses postponed annotations, a class statement here would carry string hints)
         _ProbeC17 = dataclasses.make_dataclass("_ProbeC17", [("z", list, field(default_factory=list))])
@@ -1075,7 +1210,12 @@ def _variant():
             by_name = 1 if "x" in T.dataclass_node_factory(mk([("y", int, 2)])).preview_inputs() else 0
         except Exception:  # noqa: BLE001
             by_name = 1
-        _VARIANT = [recast, cached, by_hash, by_name] + _probe_functions()
+        try:
+            _ProbeCV = dataclasses.make_dataclass("_ProbeC17ClassVar", [("x", int, 1), ("unit", typing.ClassVar[str], "m")])
+            raw = 1 if "unit" in T.dataclass_node_factory(_ProbeCV).preview_inputs() else 0
+        except Exception:  # noqa: BLE001
+            raw = 1
+        _VARIANT = [recast, cached, by_hash, by_name] + _probe_functions() + [raw]
     return _VARIANT
 
 
@@ -1180,7 +1320,9 @@ def _ns():
 
     from .nodes_c17 import Term
 
-    return {"typing": typing, "_T": Term}
+    import dataclasses
+
+    return {"typing": typing, "_T": Term, "dataclasses": dataclasses}
 
 
 def ann_tok(ann):
@@ -1308,7 +1450,9 @@ def _run(case, h, modname, variant):
     facts: dict = {"def_error": None, "runs": []}
     stats: dict = {f"kind:{kind}": 1}
     E = inspect.Parameter.empty
-    ns = {"typing": typing, "_T": Term}
+    import dataclasses as _dataclasses
+
+    ns = {"typing": typing, "_T": Term, "dataclasses": _dataclasses}
 
     make_inst = None  # (args, kwargs) -> node
     ref_params = None  # [(name, default|E)]
@@ -1432,20 +1576,25 @@ def _run(case, h, modname, variant):
             if case["already"] and case.get("how", "decorator") == "prior":
                 for D in Ds:
                     T.as_dataclass_node(D)  # an earlier use of the same class (node class thrown away)
-            ref_params = [(x, E if k == "n" else val(d)) for x, _a, k, d in case["fields"]]
             # Python building the dataclass itself from the arguments that were passed: field defaults and default
             # factories are applied by the dataclass machinery, not by this harness
             ref_fn = lambda ex: B(**ex)  # noqa: E731
             import dataclasses as _dcs
 
+            # what the dataclass is built from, as python's own `dataclasses` made the reference twin: the members of
+            # its field table (computed along the MRO) that are parameters of its __init__, with their defaults
             py_defaults = []
-            for fld in _dcs.fields(B):
+            for _nm, fld in dc_init_fields(B):
                 if fld.default is not _dcs.MISSING:
                     py_defaults.append(fld.default)
                 elif fld.default_factory is not _dcs.MISSING:
                     py_defaults.append(fld.default_factory())
                 else:
                     py_defaults.append(E)
+            if dc_hier(case):
+                ref_params = [(nm, d) for (nm, _f), d in zip(dc_init_fields(B), py_defaults)]
+            else:
+                ref_params = [(x, E if k == "n" else val(d)) for x, _a, k, d in case["fields"]]
             if case["api"] == "helper":
                 cls = type(T.dataclass_node(Ds[0], True))
                 use = iter(Ds[1:])
@@ -1495,6 +1644,12 @@ def _run(case, h, modname, variant):
             hints = list(typing.get_args(x)) if len(labels) > 1 else [x]
             hints += [None] * (len(labels) - len(hints))
         exp_out = [[lab, hnt] for lab, hnt in zip(labels, hints)]
+    elif kind == "dc" and dc_hier(case):
+        import dataclasses as _dcs
+
+        # one input per member the dataclass is built from, hinted with the member's annotation, defaulting to its plain
+        # default: read off PYTHON'S OWN dataclass of the same layout (class-level: a default factory shows as no default)
+        exp_in = [[nm, f.type, "ND" if f.default is _dcs.MISSING else tok(f.default)] for nm, f in dc_init_fields(B)]
     elif kind == "dc":
         exp_in = [[x, eval(a, ns), d if k == "v" else "ND"] for x, a, k, d in case["fields"]]
     elif kind == "dict":
@@ -1563,7 +1718,9 @@ def _run(case, h, modname, variant):
             rf["py_ret"] = None if exp is _NoDemand else tok(exp)
             if kind == "dc":
                 # "the dataclass built from the inputs": what the fields of Python's own instance hold
-                rf["py_args"] = [tok(getattr(exp, nm)) for nm in names]
+                # (an InitVar is an argument of the build, not an attribute of what is built)
+                rf["py_args"] = [tok(getattr(exp, nm)) if hasattr(exp, nm) else (tok(ex[nm]) if nm in ex else tok(d))
+                                 for nm, d in zip(names, py_defaults)]
             else:
                 rf["py_args"] = [tok(ex[nm]) if nm in ex else tok(d) for nm, d in zip(names, py_defaults)]
         facts["runs"].append(rf)
@@ -1688,7 +1845,7 @@ def _def_expect(case):
 def model_input(case, impl=None):
     if case["kind"] == "malformed":
         return list(case["lines"])
-    v = (impl or {}).get("variant") or [0] * 8
+    v = (impl or {}).get("variant") or [0] * 9
     lines = ["cfg " + " ".join(str(x) for x in v)]
     kind = case["kind"]
     if kind == "fn":
@@ -1729,8 +1886,15 @@ def model_input(case, impl=None):
             lines.append(" ".join(["def", "dc", "1",
                                    *[f"{x}:{k}:{d if d is not None else '-'}:{ann_tok(a)}" for x, a, k, d in case["prior_fields"]]]))
             lines.append(f"regkey {rk[1][0]} {rk[1][1]}")
+        def fld(x, a, k, d, opts):
+            o = (opts or {}).get(x)
+            return f"{x}:{k}:{d if d is not None else '-'}:{ann_tok(_dc_ann(a, o))}" + (f":{o}" if o else "")
+
+        for c in case.get("chain") or []:
+            lines.append(" ".join(["dcbase", "1" if c["deco"] else "0",
+                                   *[fld(x, a, k, d, c.get("opts")) for x, a, k, d in c["fields"]]]))
         lines.append(" ".join(["def", "dc", "1" if case["already"] else "0",
-                               *[f"{x}:{k}:{d if d is not None else '-'}:{ann_tok(a)}" for x, a, k, d in case["fields"]]]))
+                               *[fld(x, a, k, d, case.get("opts")) for x, a, k, d in case["fields"]]]))
     if impl is not None and impl.get("facts", {}).get("def_error"):
         # the model's own definition verdict is still printed by the driver; nothing can be instantiated
         return lines
@@ -1822,6 +1986,8 @@ def oracle(case, r):
         sfacts = {"already": bool(case["already"]), "has_factory": any(k == "f" for _x, _a, k, _d in case["fields"])}
         if case.get("prior_fields") is not None:
             sfacts["prior_same_name"] = True
+        if any(o in ("cv", "i0") for c in [case, *(case.get("chain") or [])] for o in (c.get("opts") or {}).values()):
+            sfacts["has_pseudo"] = True  # a ClassVar member / an init=False field somewhere in the hierarchy
     if kind == "dict" and case.get("prior_spec") is not None:
         sfacts = {"prior_same_hash": True}
     if kind == "fn":
